@@ -134,6 +134,7 @@ type World struct {
 	ByAddr                                                                 map[string]*Actor
 	ByDid                                                                  map[string]*Actor
 	Owners, Sponsors, Gateways, SPs, Fishmen, Validators, Delegators, Advs []*Actor
+	RejectedParams                                                         string // why validation rejected the drawn node parameters ("" = accepted)
 }
 
 func NewWorld(cfg Config) *World {
@@ -298,7 +299,14 @@ func (w *World) Genesis() []byte {
 		NextRewardPerBlock: sdk.NewInt64DecCoin(Denom, 0),
 	}
 	if err := ng.Validate(); err != nil {
-		panic(err)
+		// a drawn parameter set that validation rejects is not a configuration the chain can start
+		// with: the run continues with the yield reset to a valid value (C02 quantifies over sets that
+		// pass validation)
+		w.RejectedParams = err.Error()
+		ng.Params.AnnualPercentageYield = "0.5"
+		if err := ng.Validate(); err != nil {
+			panic(err)
+		}
 	}
 	gs[nodetypes.ModuleName] = cdc.MustMarshalJSON(ng)
 
